@@ -51,6 +51,7 @@ var envFaultStates = map[string]bool{"oracle_down": true, "price_inactive_unsafe
 	"v1_two_apps_one_unconfigured": true, "debt_price_inactive_two_apps": true, "v1_lend_no_params": true, "two_apps_one_dutch_disabled": true,
 	"setup_lookup_before_fees_surplus": true, "setup_lookup_before_fees_debt": true, "setup_second_asset_later": true, "setup_lookup_without_mapping": true,
 	"setup_mapping_without_lookup": true, "setup_no_auction_params": true, "setup_no_whitelist": true, "setup_random": true,
+	"v1_surplus_no_params": true, "v1_debt_no_params": true, "fee_conversion_gate": true, "fee_conversion_gate_second_app": true,
 	"surplus_english_off_unsafe": true, "debt_english_off_unsafe": true, "killswitch_unsafe": true}
 
 // advance moves the working context to the header of the next block (height+1, time+dt) without running any hook:
@@ -368,8 +369,51 @@ func (w *world) setup(p params, withVaults bool) {
 	}
 }
 
+// v1starter: harbor's collector is configured for surplus (or debt) auctions and its fees pass the threshold; the V1
+// auction begin blocker's activators are the ones that act (with or without V1 auction parameters for the app).
+func (w *world) v1starter(p params, surplus, withParams bool) {
+	w.base("0.5")
+	w.mintGov()
+	if withParams {
+		w.v1app("harbor", true)
+	}
+	w.vaults(p.NVaults)
+	w.vaults2(2)
+	if surplus {
+		w.collector(true, false, 5000, 1000, 4000)
+		w.lookup("osmovlt", "uasset3", 5000, 1000, 4000)
+		w.mapping("osmovlt", "uasset3", true, false)
+	} else {
+		w.collector(false, true, 100000000, 50000000, 200000)
+	}
+	w.advance(6 * time.Second)
+}
+
+func feeGate(trapApps []string) func(w *world, p params) []string {
+	return func(w *world, p params) []string {
+		w.base("0.5")
+		w.liquidity(10 * time.Second)
+		w.liquidityIn("harbor", 10*time.Second)
+		for _, a := range trapApps {
+			w.feeTrap(a)
+		}
+		w.mustBlock(6 * time.Second)
+		w.mustBlock(6 * time.Second) // orders expired, requests executed: the next begin blocker has clean-up work in both apps
+		w.atHeight(150*(1+w.Height/150) - 1)
+		w.advance(6 * time.Second)
+		return []string{"begin", "end"}
+	}
+}
+
 func stateBuilders() []stateBuilder {
 	return []stateBuilder{
+		{"fee_conversion_gate", feeGate([]string{"cswap"})},
+		{"fee_conversion_gate_second_app", feeGate([]string{"harbor"})},
+		{"fee_conversion_gate_both", feeGate([]string{"cswap", "harbor"})},
+		{"v1_surplus_no_params", func(w *world, p params) []string { w.v1starter(p, true, false); return []string{"aucv1"} }},
+		{"v1_surplus_params", func(w *world, p params) []string { w.v1starter(p, true, true); return []string{"aucv1"} }},
+		{"v1_debt_no_params", func(w *world, p params) []string { w.v1starter(p, false, false); return []string{"aucv1"} }},
+		{"v1_debt_params", func(w *world, p params) []string { w.v1starter(p, false, true); return []string{"aucv1"} }},
 		{"oracle_history_n1", oracleHistory(1, 30)},
 		{"oracle_history_n2", oracleHistory(2, 50)},
 		{"oracle_history_n3", oracleHistory(3, 30)},
